@@ -2,8 +2,6 @@
 from __future__ import annotations
 
 import ast
-import copy
-from collections import deque
 from typing import Callable, Dict, Iterable, List, Optional, Sequence, Set, Tuple
 
 from sa.astx import NotConst, _lin, const_eval, dotted, src, walk_local
@@ -84,21 +82,35 @@ def local_aliases(func: ast.AST, allow=lambda v: isinstance(v, ast.Attribute)) -
     return {k: v for k, v in val.items() if count.get(k) == 1 and k not in params and allow(v)}
 
 
+def reparse(expr: ast.AST) -> ast.AST:
+    """Fresh copy of an expression without the engine's _parent links (deepcopy would follow them up
+    to the whole module)."""
+    return ast.parse(src(expr), mode="eval").body
+
+
 class _Subst(ast.NodeTransformer):
-    def __init__(self, table: Dict[str, ast.expr]):
+    def __init__(self, table: Dict[str, str]):
         self.table = table
+        self.hit = False
 
     def visit_Name(self, node):
         if isinstance(node.ctx, ast.Load) and node.id in self.table:
-            return copy.deepcopy(self.table[node.id])
+            self.hit = True
+            return ast.parse(self.table[node.id], mode="eval").body
         return node
 
 
 def canon(expr: ast.AST, aliases: Dict[str, ast.expr]) -> ast.AST:
     """Copy of expr with single-assignment local aliases replaced by what they stand for."""
-    e = copy.deepcopy(expr)
+    e = reparse(expr)
+    if not aliases:
+        return e
+    table = {k: src(v) for k, v in aliases.items()}
     for _ in range(3):
-        e = _Subst(aliases).visit(e)
+        sub = _Subst(table)
+        e = sub.visit(e)
+        if not sub.hit:
+            break
     return ast.fix_missing_locations(e)
 
 
